@@ -22,7 +22,7 @@ def run_config(chk, tier, cfgname):
                         "wake-up thresholds on concrete allocation counts"]
     common.protocol_rows(chk, prog, "exit-structure", ["collect_debt", "mark_debt", "cycle_debt"], with_pacing=True, aspects=("pacing",))
     for t in ("trace", "trace_weak", "resurrect", "mark_one", "sweep_one", "backward_barrier", "forward_barrier", "link"):
-        typestate.apply(chk, "credited-at-most-once:" + t, t, aspects=("credits", "credits-over"))
+        typestate.apply(chk, "credited-at-most-once:" + t, t, aspects=("credits", "credits-over", "credits-repeat"))
     rules_debt.check_formula(chk, prog)
     rules_debt.check_finish_cycle(chk, prog)
     rules_debt.check_helpers(chk, prog)
